@@ -1,7 +1,8 @@
 (* C02 — Work and memory are bounded by real input size, never by declared sizes (scan part). *)
 From Coq Require Import ZArith List Lia Bool.
 Import ListNotations.
-From LX Require Import Base.ListAux Model.ScanSkel Proofs.ScanSkelProofs Model.Linear Proofs.LinearProofs Model.MixLoop Proofs.MixLoopProofs Generated.Consts Model.Lzw.
+From LX Require Import Base.ListAux Model.ScanSkel Proofs.ScanSkelProofs Model.Linear Proofs.LinearProofs Model.MixLoop Proofs.MixLoopProofs Generated.Consts Model.Lzw Model.PP20 Model.Inflate Model.ItSex Model.ArcLzw
+  Proofs.LzwFuelProofs Proofs.PP20FuelProofs Proofs.InflateFuelProofs Proofs.MiscFuelProofs.
 Local Open Scope Z_scope.
 
 (* Whatever the patterns contain - any jumps, breaks, loops, delays, self-referential or not: the skeleton makes no
@@ -54,6 +55,61 @@ Proof.
   injection H as <-. exact Hlt.
 Qed.
 Print Assumptions compress_output_below_ceiling.
+
+(* ---------------------------------------------------------------- depackers: work bounded by the input, for EVERY input ---------
+   Each transcribed decoder is a loop with an explicit iteration budget that the model sets from the size of its input.  The
+   *_f functions below (defined next to the proofs) are the model's decoders with that budget as a parameter; each is the model's
+   own function at the model's own budget (by computation), and the theorems say that for every byte string whatsoever -
+   corrupt, truncated, hostile - a larger budget never changes the result: the loop has ended, one way or the other, within a
+   number of iterations that is linear in the number of input bytes.  (The round-trip theorems of C08 say this for writer output
+   only.)  The differential legs of C08 / C19 tie the models - budgets included: an exhausted budget is a reported error - to
+   decrunch_compress, decrunch_pp, tinfl_decompress, itsex_decompress8/16 and arc_unpack. *)
+
+(* compress (.Z): at most 2 * bits + 2 iterations of the code reader (a width change consumes nothing, but never twice in a row),
+   and every string walk of the table ends within 65600 steps in every table a code sequence can build *)
+Theorem compress_decoder_work_bounded : forall file f_unpack f_str,
+  (model_unpack_fuel file <= f_unpack)%nat -> (str_fuel <= f_str)%nat -> uncompress_f f_unpack f_str file = Lzw.uncompress file.
+Proof. exact uncompress_fuel. Qed.
+Print Assumptions compress_decoder_work_bounded.
+Theorem compress_decoder_budget_linear : forall file, (model_unpack_fuel file <= 16 * length file + 2)%nat.
+Proof. exact model_unpack_fuel_linear. Qed.
+Print Assumptions compress_decoder_budget_linear.
+
+(* PowerPacker: one bit at least per iteration *)
+Theorem pp_decoder_work_bounded : forall file fuel, (8 * length file < fuel)%nat -> pp_unpack_f fuel file = pp_unpack file.
+Proof. exact pp_unpack_fuel. Qed.
+Print Assumptions pp_decoder_work_bounded.
+
+(* DEFLATE: every block consumes at least three bits, every symbol at least one, every code-length repeat appends at least one length *)
+Theorem inflate_work_bounded : forall data fuel, (8 * length data < fuel)%nat -> inflate_f fuel data = Inflate.inflate data.
+Proof. exact inflate_fuel. Qed.
+Print Assumptions inflate_work_bounded.
+
+(* IT compressed samples: a block of blen bytes asked for d samples ends within d + 8 * blen + 8 iterations (a width change
+   consumes at least one bit; the reader may run past the end once), and len + 1 blocks are enough for len samples *)
+Theorem itsex_block_work_bounded : forall wide it215 d left temp temp2 bits0 body acc fuel,
+  (d + 8 * length body + 8 <= fuel)%nat ->
+  block_loop fuel wide it215 d left temp temp2 {| b_bits := bits0; b_num := 0; b_rest := body |} acc =
+  block_loop (d + 8 * length body + 8) wide it215 d left temp temp2 {| b_bits := bits0; b_num := 0; b_rest := body |} acc.
+Proof. exact block_loop_fuel_enough. Qed.
+Print Assumptions itsex_block_work_bounded.
+Theorem itsex_work_bounded : forall wide it215 len src nblocks extra, (len + 1 <= nblocks)%nat ->
+  decompress_f extra nblocks wide it215 len src = ItSex.decompress (len + 1) wide it215 len src.
+Proof. exact decompress_fuel_enough. Qed.
+Print Assumptions itsex_work_bounded.
+
+(* ARC / Spark LZW (crunched, squashed, compressed): one code per iteration, eight codes per group of at least 72 bits *)
+Theorem arc_lzw_work_bounded : forall fuel method dest_len src, (8 * length src + 16 <= fuel)%nat ->
+  arc_unpack_f fuel method dest_len src = arc_unpack method dest_len src.
+Proof. exact arc_unpack_fuel. Qed.
+Print Assumptions arc_lzw_work_bounded.
+
+(* the *_f functions are the model's decoders (by computation), and a budget that is too small does change the result: non-vacuity *)
+Example c02_depackers_nonvacuous :
+  (forall file, Lzw.uncompress file = uncompress_f (model_unpack_fuel file) str_fuel file) /\
+  (forall data, Inflate.inflate data = inflate_f (length (Lzw.bits_of_bytes data) + 1) data) /\
+  Lzw.uncompress [31; 157; 144; 65; 0; 1] = Some [65; 128] /\ uncompress_f 1 1 [31; 157; 144; 65; 0; 1] = Some [65].
+Proof. split; [exact uncompress_f_model|]. split; [exact inflate_f_model|]. vm_compute. split; reflexivity. Qed.
 
 (* non-vacuity: three cells; a loop over cell 1 until its counter wraps is a legal trace and is within the bound *)
 Example c02_nonvacuous :
